@@ -290,9 +290,11 @@ class DataflowAnalysisAttacher(Transformer):
             # are potentially defined and which are definitely only used by
             # this call
             defines, uses = OrderedSet(), OrderedSet()
-            # A dummy argument without declared intent may be read and written by the callee
-            outvals = [val for arg, val in o.arg_iter() if str(arg.type.intent).lower() in ('inout', 'out', 'none')]
-            invals = [val for arg, val in o.arg_iter() if str(arg.type.intent).lower() in ('inout', 'in', 'none')]
+            # A dummy argument without declared intent may be read and written by the callee;
+            # ``intent(in out)`` is stored with the blank and means ``inout``
+            intents = [(str(arg.type.intent).lower().replace(' ', ''), val) for arg, val in o.arg_iter()]
+            outvals = [val for intent, val in intents if intent in ('inout', 'out', 'none')]
+            invals = [val for intent, val in intents if intent in ('inout', 'in', 'none')]
 
             for val in outvals:
                 # Symbols in the subscripts of an argument are used, not defined, by passing that argument
